@@ -132,6 +132,20 @@ def run_case(case):
     states = 1
     trans = 0
     depth = case["depth"]
+    # object lifetimes: EVERY state is saved (each into its own copy of the parameter set) before ANY of them is used, then they are used oldest first
+    saved = []
+    for k in range(len(root["t"]) - 1):
+        ps = sc.dcp(w.parset)
+        ps.set_initialization(r0, float(root["t"][k]))
+        saved.append((k, ps))
+    for k, ps in saved:
+        Y = float(root["t"][k])
+        r1 = run_from(w, ps, Y)
+        trans += 1
+        vs += compare_tail(root, dict(t=np.array(r1.model.t), a=arrays(r1)), k, f"{case['name']} dt={case['dt']!r} state of {Y} used after all other states had been saved", 1e-10, "saved-states-interfere")
+        if len(vs) >= 3:
+            break
+    del saved
     for level in range(depth):
         nxt = []
         for node in frontier:
